@@ -60,7 +60,8 @@ def check(prog: Program, tier: str) -> Result:
     _r17_6(prog, res)
     _r17_7(prog, res)
     _r17_8(prog, res)
-    res.floors.update({"R17.1": 12, "R17.2": 10, "R17.3": 4, "R17.4": 40, "R17.5": 6, "R17.6": 4, "R17.7": 2, "R17.8": 1})
+    _r17_9(prog, res)
+    res.floors.update({"R17.9": 3, "R17.1": 12, "R17.2": 10, "R17.3": 4, "R17.4": 40, "R17.5": 6, "R17.6": 4, "R17.7": 2, "R17.8": 1})
     res.analysed["bound_claims"] = n_claims
     return res
 
@@ -149,6 +150,104 @@ def _reader_obligation(prog: Program, res: Result, fn: Func, sub: ast.Subscript)
     res.decide(single, "R17.1", fn.loc(ctor), fn.fq, f"single-operator restriction for {src}",
                "the comparison is selected by a template with exactly one operator/comparator" if single else
                "no template restricts the negated comparison to a single operator: `a < b < c` would become `a >= b >= c`")
+
+
+# ------------------------------------------------------------------------------------------------ R17.9
+NUMERIC_PINS = ("int", "bool")      # range bounds: integers only (a float pin would still give range(3.5, 10))
+
+
+def _r17_9(prog: Program, res: Result) -> None:
+    """Arithmetic and ordering on the VALUE of a matched constant: `c.value + 1`, `c.value > start` are only meaningful for
+    numbers - and the range rewrites only for integers.  The node c is selected by a template; `ast.Constant()` without a
+    `value=` pin also selects 2.5, 'a', None, b'x'.  With 2.5 the rewrite produces `range(3.5, 10)` (TypeError in the
+    rewritten program where the original ran), with 'a' or None the comparison raises inside the formatter.  Instance:
+    every arithmetic / ordering operation with an operand `<e>.value`; obligation: every template the path condition (or
+    the loop source) says the node of <e> matches pins each ast.Constant in it to a numeric type, or the path carries an
+    isinstance test of that value."""
+    from ..defuse import bindings
+    from ..pathcond import PathAnalysis, entails
+
+    def root_name(e: ast.AST) -> Optional[str]:
+        while isinstance(e, (ast.Attribute, ast.Subscript)):
+            e = e.value
+        return e.id if isinstance(e, ast.Name) else None
+
+    def constants_in(e: ast.AST, fn: Func, depth: int = 0, seen=None) -> List[ast.AST]:
+        """ast.Constant sub-templates (calls or bare class references) of the template expression e."""
+        seen = seen if seen is not None else set()
+        out: List[ast.AST] = []
+        if depth > 6 or id(e) in seen:
+            return out
+        seen.add(id(e))
+        for x in ast.walk(e):
+            if isinstance(x, ast.Call) and ast_class_name(prog, fn, x.func) == "Constant":
+                out.append(x)
+            elif isinstance(x, ast.Attribute) and ast_class_name(prog, fn, x) == "Constant" and not (isinstance(parent(x), ast.Call) and parent(x).func is x):
+                out.append(x)
+            elif isinstance(x, ast.Name) and isinstance(x.ctx, ast.Load):
+                for _s, v in bindings(fn).get(x.id, []):
+                    if v is not None:
+                        out += constants_in(v, fn, depth + 1, seen)
+        return out
+    n = 0
+    for fn in prog.funcs.values():
+        sites = []
+        for x in walk_own(fn.node):
+            ops: List[ast.AST] = []
+            if isinstance(x, ast.BinOp) and isinstance(x.op, (ast.Add, ast.Sub, ast.Mult, ast.Div, ast.FloorDiv, ast.Mod, ast.Pow)):
+                ops = [x.left, x.right]
+            elif isinstance(x, ast.Compare) and any(isinstance(o, (ast.Lt, ast.Gt, ast.LtE, ast.GtE)) for o in x.ops):
+                ops = [x.left] + list(x.comparators)
+            elif isinstance(x, ast.UnaryOp) and isinstance(x.op, ast.USub):
+                ops = [x.operand]
+            for o in ops:
+                if isinstance(o, ast.Attribute) and o.attr == "value" and root_name(o.value) is not None:
+                    sites.append((x, o))
+                    break
+        if not sites:
+            continue
+        pa = PathAnalysis(prog, fn)
+        mt_calls = [c for c in ast.walk(fn.node) if isinstance(c, ast.Call) and (prog.dotted(c.func) or "").split(".")[-1] == "match_template" and len(c.args) >= 2]
+        for x, o in sites:
+            n += 1
+            # the nodes the operand may be: the root of the access path, and what that root is bound to
+            roots = {root_name(o.value)}
+            for _s, v in bindings(fn).get(root_name(o.value), []):
+                if v is not None and root_name(v) is not None:
+                    roots.add(root_name(v))
+            templates: List[ast.AST] = []
+            worlds = pa.worlds_at(x)
+            for c in mt_calls:
+                if root_name(c.args[0]) in roots and isinstance(c.args[0], ast.Name) and worlds and all(entails(w.facts, pa.formula(c, w)) for w in worlds):
+                    templates.append(c.args[1])
+            # loop sources: for m in [sorted(] filter_nodes(.., T) [)]
+            for lp in ast.walk(fn.node):
+                if isinstance(lp, ast.For) and isinstance(lp.target, ast.Name) and lp.target.id in roots and any(x is y for y in ast.walk(lp)):
+                    for c in ast.walk(lp.iter):
+                        if isinstance(c, ast.Call) and (prog.dotted(c.func) or "").split(".")[-1] in ("filter_nodes", "walk") and len(c.args) >= 2:
+                            templates.append(c.args[1])
+            typed_on_path = False
+            for w in worlds or []:
+                pass
+            isinst = [c for c in ast.walk(fn.node) if isinstance(c, ast.Call) and isinstance(c.func, ast.Name) and c.func.id == "isinstance" and len(c.args) == 2
+                      and norm(c.args[0]) == norm(o)]
+            typed_on_path = bool(worlds) and any(all(entails(w.facts, pa.formula(c, w)) for w in worlds) for c in isinst)
+            consts = [k for t in templates for k in constants_in(t, fn)]
+            loose = [k for k in consts if not (isinstance(k, ast.Call) and any(kw.arg == "value" and norm(kw.value) in NUMERIC_PINS for kw in k.keywords))]
+            text = f"{short(x, 60)}"
+            if typed_on_path:
+                res.ok("R17.9", fn.loc(x), fn.fq, text, f"{norm(o)} is tested with isinstance on this path")
+            elif not templates:
+                res.undecided("R17.9", fn.loc(x), fn.fq, text, f"no template found that selects the node of {norm(o)}")
+            elif loose:
+                res.bad("R17.9", fn.loc(x), fn.fq, text,
+                        f"the node of {norm(o)} is selected by templates in which `{norm(loose[0])}` (line {loose[0].lineno}"
+                        + (f", {len(loose)} such sub-templates" if len(loose) > 1 else "") + ") does not pin the value to a number: 2.5 gives `range(3.5, 10)` "
+                        "(TypeError in the rewritten program), 'a' or None raise TypeError inside the formatter")
+            else:
+                res.ok("R17.9", fn.loc(x), fn.fq, text, f"every constant in the selecting templates is pinned to a numeric type ({len(consts)} sub-templates)")
+    if n == 0:
+        raise AnalysisError("no arithmetic on a matched constant's value found (anchor lost)")
 
 
 # ------------------------------------------------------------------------------------------------ R17.2
@@ -940,6 +1039,15 @@ def _run_branch(stmts, state, c, cvar) -> None:
 from ..selftest import Variant  # noqa: E402
 
 VARIANTS = [
+    Variant("range-bound-from-any-constant", "FIRE", "symbolic_math",
+            "                left=ast.Name(id=target_name), ops=[ast.Gt()], comparators=[ast.Constant(value=int)]",
+            "                left=ast.Name(id=target_name), ops=[ast.Gt()], comparators=[ast.Constant()]", "R17.9"),
+    Variant("range-bound-from-float-constant", "FIRE", "symbolic_math",
+            "                left=ast.Name(id=target_name), ops=[ast.Lt()], comparators=[ast.Constant(value=int)]",
+            "                left=ast.Name(id=target_name), ops=[ast.Lt()], comparators=[ast.Constant(value=(int, float))]", "R17.9"),
+    Variant("range-bound-type-tested-instead-of-pinned", "SILENT", "symbolic_math",
+            "            if isinstance(condition.left, ast.Constant):\n                comparator = condition.left\n            else:\n                comparator = condition.comparators[0]\n",
+            "            if isinstance(condition.left, ast.Constant):\n                comparator = condition.left\n            else:\n                comparator = condition.comparators[0]\n            if not isinstance(comparator.value, int):\n                continue\n"),
     Variant("flags-initialised-once-before-the-loop", "FIRE", "symbolic_math",
             "    for node in core.walk(root, ast.BoolOp):\n        if isinstance(node.op, (ast.And, ast.Or)):\n            # Find opposite expressions",
             "    always_true = always_false = False\n    for node in core.walk(root, ast.BoolOp):\n        if isinstance(node.op, (ast.And, ast.Or)):\n            # Find opposite expressions",
